@@ -1668,20 +1668,20 @@ class ThroughputCalculator:
             task = k
             if task not in global_throughput:
                 global_throughput[task] = []
-            # sort all samples by time
-            if task in self.task_stats:
-                samples = itertools.chain(v, self.task_stats[task].unprocessed)
-            else:
-                samples = v
-            current_samples = sorted(samples, key=lambda s: s.absolute_time)
-
             # Calculate throughput based on service time if the runner does not provide one, otherwise use it as is and
-            # only transform the values into the expected structure.
-            first_sample = current_samples[0]
-            if first_sample.throughput is None:
-                task_throughput = self.calculate_task_throughput(task, current_samples, bucket_interval_secs)
-            else:
-                task_throughput = self.map_task_throughput(current_samples)
+            # only transform the values into the expected structure. This is decided per sample: requests of a task whose
+            # runner provides the throughput do not carry one if they have failed.
+            provided = sorted((s for s in v if s.throughput is not None), key=lambda s: s.absolute_time)
+            task_throughput = self.map_task_throughput(provided)
+            # sort all remaining samples by time (samples that have been carried over never provide their own throughput)
+            samples = [s for s in v if s.throughput is None]
+            if samples:
+                if task in self.task_stats:
+                    samples = itertools.chain(samples, self.task_stats[task].unprocessed)
+                current_samples = sorted(samples, key=lambda s: s.absolute_time)
+                task_throughput.extend(self.calculate_task_throughput(task, current_samples, bucket_interval_secs))
+                if provided:
+                    task_throughput.sort(key=lambda t: t[0])
             global_throughput[task].extend(task_throughput)
 
         return global_throughput
